@@ -46,14 +46,18 @@ def gen_grammars(prop, tier, n, profile):
     core = gg.core_grammars()
     if profile == 'plain':
         for g in core: add(g)
+        for g in core[:12]: add(gg.shuffle_symbols(g, rnd))
         st = gg.grammar_stream(rnd)
-        while len(out) < n: add(next(st)[0])
+        while len(out) < n:
+            g = next(st)[0]
+            add(gg.shuffle_symbols(g, rnd) if rnd.random() < 0.35 else g)
     elif profile == 'allclasses':
         for g in core: add(g)
         st = gg.grammar_stream(rnd, want_lr1=0.35)
         while len(out) < n:
             g, tb = next(st)
             if rnd.random() < 0.3: g = gg.with_precedence(g, rnd)
+            if rnd.random() < 0.3: g = gg.shuffle_symbols(g, rnd)
             add(g)
             if rnd.random() < 0.15: add(gg.expr_grammar(rnd))
             if rnd.random() < 0.1: add(gg.add_error_rules(g, rnd))
